@@ -587,7 +587,7 @@ func cmdRun(args []string) int {
 					tags[t]++
 				}
 				if e.Case != nil && len(samples) < 6 {
-					samples = append(samples, e.Case)
+					samples = append(samples, trimSample(e.Case))
 				}
 			case "violation":
 				viols = append(viols, e)
@@ -777,6 +777,33 @@ func cmdRun(args []string) int {
 func min(a, b int) int {
 	if a < b {
 		return a
+	}
+	return b
+}
+
+// trimSample shortens the stored samples of a case for the evidence file (the case stays recognisable).
+func trimSample(raw json.RawMessage) json.RawMessage {
+	var m map[string]any
+	if json.Unmarshal(raw, &m) != nil {
+		return raw
+	}
+	if ds, ok := m["dataset"].(map[string]any); ok {
+		if ser, ok := ds["series"].([]any); ok {
+			for _, s := range ser {
+				if sm, ok := s.(map[string]any); ok {
+					if pts, ok := sm["samples"].([]any); ok && len(pts) > 4 {
+						sm["samples"] = append(pts[:4:4], fmt.Sprintf("... %d more", len(pts)-4))
+					}
+				}
+			}
+			if len(ser) > 8 {
+				ds["series"] = append(ser[:8:8], fmt.Sprintf("... %d more series", len(ser)-8))
+			}
+		}
+	}
+	b, err := json.Marshal(m)
+	if err != nil {
+		return raw
 	}
 	return b
 }
